@@ -127,3 +127,12 @@ Theorem C03_cdft_apply_location : forall L S, (0 < S)%Z -> (S <= L)%Z -> (S mod 
     forall k, (k < List.length fut)%nat -> exists v, nth k out None = Some v /\ v == nth k fut 0.
 Proof. exact cdft_fixed_point_apply_location. Qed.
 Print Assumptions C03_cdft_apply_location.
+
+(** DeltaChange through its window loop: with cm_future equal to cm_hist value for value on the same time axis,
+    apply_location returns obs at every time step *)
+Theorem C03_delta_change_apply_location : forall L S, (0 < S)%Z -> (S <= L)%Z -> (S mod 2 = 1)%Z ->
+  forall dobs dm obs hist fut, (forall d, In d dobs -> (1 <= d <= 366)%Z) -> List.length obs = List.length dobs -> eql hist fut ->
+  exists out, driver_dc Q L S dobs dm dm obs hist fut (W_dc "additive") = Some out /\ List.length out = List.length obs /\
+    forall k, (k < List.length obs)%nat -> exists v, nth k out None = Some v /\ v == nth k obs 0.
+Proof. exact dc_fixed_point_apply_location. Qed.
+Print Assumptions C03_delta_change_apply_location.
